@@ -14,6 +14,7 @@ class Ctx:
         self.prop, self.tier, self.seed, self.scr = prop, tier, seed, scr
         self.viols = []          # violations attributed to this property
         self.other = {}          # monitor -> count of violations of other properties seen (informative)
+        self.unexplained = {}    # ... of which not covered by a known finding of the owning property
         self.design = []         # design-level TLC runs
         self.trace_stats = {"states": 0, "transitions": 0, "scenarios": 0, "events": 0, "files": 0}
         self.replayed = 0        # behaviours / operations replayed into the real code
@@ -64,7 +65,12 @@ class Ctx:
             if any(mon.startswith(p) for p in mine):
                 self.viols.append(v)
             else:
+                # monitors of other properties: counted; those that are not a known finding of their own property are
+                # listed separately (on the unchanged tree that list must be empty: each entry is either a defect the
+                # owning check would report with these scenarios, or a false alarm in waiting)
                 self.other[mon] = self.other.get(mon, 0) + 1
+                if not mon.startswith("DRIFT_") and not L.match_known(v, L.load_known(), mon[:3]):
+                    self.unexplained[mon] = self.unexplained.get(mon, 0) + 1
         return viols
 
     def monitors(self):
@@ -109,6 +115,7 @@ class Ctx:
             "rule": self.rule,
             "known_findings_reproduced": sorted(seen_known.keys()),
             "violations_of_other_properties_seen": self.other,
+            "other_property_violations_not_explained_by_known_findings": self.unexplained,
             "notes": self.notes,
             "repo_tree": L.repo_tree_hash(),
         }
@@ -363,6 +370,7 @@ def c11(ctx):
 def c02(ctx):
     files = transfer_family(ctx)
     files += xfer_traces(ctx, ["zwin", "lossy", "reorder", "wrap", "basic", "il", "tiny", "zwin"], 200, 5000)
+    files += lockorder_family(ctx)
     ctx.validate(files)
 
 
@@ -706,6 +714,20 @@ EXTRA["C14"] = ["C02_Delivered", "C01_ReadNext", "C06_Genuine", "C06_AtMostOnce"
 EXTRA["C03"] = ["C01_", "C02_Delivered", "C06_Genuine", "C06_AtMostOnce", "C17_WrongKindAbort"]
 
 
+def lockorder_family(ctx):
+    """Real-time lock-order episodes (a slowed-down handler under the association lock vs. an expiring timer):
+    the only verdict is a certified lock cycle (C09_Deadlock, claimed by every check)."""
+    binp = ctx.harness()
+    out = ctx.scr.mkdir("lockorder")
+    n = 2 if ctx.quick else 6
+    ps = L.run_shards(binp, "lockorder-rt", out, n, {})
+    for p in ps:
+        if p.returncode != 0:
+            raise L.MachineryError("lockorder-rt failed: " + (p.stdout + p.stderr)[-2000:])
+    ctx.distinct.add(("lock-order-episodes",))
+    return sorted(glob.glob(os.path.join(out, "lockorder-rt-*.ndjson")))
+
+
 def lifecycle_design(ctx):
     """Lifecycle.tla (PlusCal): goroutine/lock/channel skeleton of one association; TLC checks the lock order
     and `transport closed ~> every goroutine and caller done` under weak fairness. Bound to the code by outcomes:
@@ -734,7 +756,8 @@ def c09(ctx):
     ctx.notes.append("crash points: 5 base scenarios (handshake, transfer with loss, stream reset, graceful shutdown, blocked blocking writes) x DATA/I-DATA x "
                      "every %s wire event x {Close x3, Abort, read failure, write failure, transport close} x both sides, callers parked in connect, accept, "
                      "read, blocking write and shutdown" % ("third" if ctx.quick else "single"))
-    ctx.validate(files + hs)
+    # teardown racing the processing of RE-CONFIG packets (every fourth replayed Reconfig behaviour): timers stopped
+    ctx.validate(files + hs + reconfig_family(ctx, light=True))
 
 
 def race_scan(ctx, ps, out, mode):
@@ -767,6 +790,7 @@ def c20(ctx):
             if '"ev":"cfg"' in line:
                 ctx.distinct.add(("storm", json.loads(line)["label"]))
     lifecycle_design(ctx)
+    files += lockorder_family(ctx)
     ctx.validate(files)
     # concurrent writers on ONE stream (blocking-write mode, short deadlines): WriteSeq.tla + real-time histories
     ctx.tlc_design("WriteSeq", "MC_WriteSeq_lock.cfg", workers=4, timeout=600)
